@@ -1,4 +1,5 @@
 import Ruint.Model.History
+import Ruint.Gen.WordsKernels
 /-! Driver for C04.
 * `hist`: model = `Ruint.History.step` (limb-level models) for the operations that have one, value-level
   arithmetic re-encoded into limbs for operations owned by other properties; spec = value-level arithmetic
@@ -135,7 +136,9 @@ def bc (b : Bool) : Char := if b then 't' else 'f'
 
 /-- pair code from the limb-level models: eq, hash-eq (a function of the limb array), cmp, <, <=, >, >= -/
 def pairModel (a b : List Nat) : String :=
-  String.ofList [bc (Cmp.eq a b), bc (Cmp.eq a b), cmpChar (Cmp.cmp a b), bc (Cmp.lt a b), bc (Cmp.le a b),
+  -- `cmp`: `algorithms::cmp` GENERATED from the source (`Props/C04.gen_cmp_eq`)
+  String.ofList [bc (Cmp.eq a b), bc (Cmp.eq a b),
+    cmpChar (Ruint.Gen.limb_cmp (min a.length b.length + 1) a b), bc (Cmp.lt a b), bc (Cmp.le a b),
     bc (Cmp.gt a b), bc (Cmp.ge a b)]
 def pairSpec (a b : Nat) : String :=
   String.ofList [bc (a == b), bc (a == b), cmpChar (compare a b), bc (decide (a < b)), bc (decide (a ≤ b)),
